@@ -23,6 +23,8 @@ var big19 = "9223372036854775807"
 var big20 = "99999999999999999999"
 var two63 = "9223372036854775808"
 var maxU64 = "18446744073709551615"
+var two64 = "18446744073709551616"
+var two64p3 = "18446744073709551619"
 
 var leafSpecs = []leafSpec{
 	{'l', `1`, []SRule{Ru("min", "0"), Ru("min", "1"), Ru("min", "-0"), Ru("min", "1.0"), Ru("max", "1"), Ru("max", "5.0"), Ru("exclusiveMinimum", "true"), Ru("exclusiveMaximum", "false"),
@@ -32,7 +34,7 @@ var leafSpecs = []leafSpec{
 	{'l', `1.5`, []SRule{Ru("precision", "1"), Ru("precision", "2"), Ru("precision", two63), Ru("min", "0.5"), Ru("min", "0.50"), Ru("max", "1.50"), Ru("type", `"float"`), Ru("type", `"decimal"`), Ru("nullable", "true"), Ru("const", "true"), Ru("or", `["float", "email"]`)}},
 	{'l', `0.123456`, []SRule{Ru("precision", "6"), Ru("precision", "7"), Ru("precision", "10"), Ru("precision", "16"), Ru("min", "0"), Ru("nullable", "true")}},
 	{'l', `-12.0000001`, []SRule{Ru("precision", "7"), Ru("precision", "9"), Ru("max", "0")}},
-	{'l', `"ab"`, []SRule{Ru("minLength", "0"), Ru("minLength", "2"), Ru("maxLength", "2"), Ru("maxLength", big19), Ru("maxLength", big20), Ru("maxLength", two63), Ru("maxLength", maxU64), Ru("regex", `"^a"`), Ru("regex", `"a\\.b|ab"`),
+	{'l', `"ab"`, []SRule{Ru("minLength", "0"), Ru("minLength", "2"), Ru("maxLength", "2"), Ru("maxLength", big19), Ru("maxLength", big20), Ru("maxLength", two63), Ru("maxLength", maxU64), Ru("minLength", two64), Ru("maxLength", two64p3), Ru("regex", `"^a"`), Ru("regex", `"a\\.b|ab"`),
 		Ru("type", `"string"`), Ru("const", "true"), Ru("enum", `["ab", "c"]`), Ru("enum", `@e`), Ru("type", `"@b"`), Ru("or", `["@b", "integer"]`), Ru("or", `[{type: "string", maxLength: 3}, {type: "@a"}]`), Ru("nullable", "true")}},
 	{'l', `"a@b.cc"`, []SRule{Ru("type", `"email"`), Ru("nullable", "true"), Ru("minLength", "1")}},
 	{'l', `"2021-01-02"`, []SRule{Ru("type", `"date"`), Ru("const", "true")}},
@@ -48,7 +50,7 @@ var leafSpecs = []leafSpec{
 	{'r', `@a | @b | @a`, []SRule{Ru("nullable", "true")}},
 	{'o', ``, []SRule{Ru("additionalProperties", "true"), Ru("additionalProperties", "false"), Ru("additionalProperties", `"string"`), Ru("additionalProperties", `"@a"`), Ru("additionalProperties", `"any"`),
 		Ru("allOf", `"@a"`), Ru("allOf", `["@a", "@c"]`), Ru("allOf", `["@a"]`), Ru("allOf", `""`), Ru("additionalProperties", `""`), Ru("nullable", "true"), Ru("type", `"object"`), Ru("or", `[{type: "object"}, {type: "string"}]`), Ru("or", `["uri", "object"]`), Ru("type", `"@a"`), Ru("type", `"any"`)}},
-	{'a', ``, []SRule{Ru("minItems", "0"), Ru("maxItems", "0"), Ru("minItems", "1"), Ru("maxItems", "3"), Ru("maxItems", big20), Ru("maxItems", maxU64), Ru("type", `"array"`), Ru("nullable", "true"), Ru("or", `["array", "@a"]`), Ru("type", `"any"`), Ru("type", `"@l"`), Ru("or", `["@l", "string"]`)}},
+	{'a', ``, []SRule{Ru("minItems", "0"), Ru("maxItems", "0"), Ru("minItems", "1"), Ru("maxItems", "3"), Ru("maxItems", big20), Ru("maxItems", maxU64), Ru("maxItems", two64p3), Ru("type", `"array"`), Ru("nullable", "true"), Ru("or", `["array", "@a"]`), Ru("type", `"any"`), Ru("type", `"@l"`), Ru("or", `["@l", "string"]`)}},
 	{'r', `@l`, []SRule{Ru("nullable", "true")}},
 	{'r', `@n | @l`, nil},
 	{'l', `7`, []SRule{Ru("type", `"@n"`), Ru("or", `["@n", "@b"]`)}},
